@@ -1052,6 +1052,26 @@ func callBuiltin(caller *frame, callpos token.Pos, fn *ssa.Builtin, args []value
 		}
 		return nil
 
+	case "clear":
+		switch m := args[0].(type) {
+		case *omap:
+			if m != nil {
+				raceMap(m, true)
+				m.ents = nil
+				m.idx = map[interface{}][]int{}
+				m.n = 0
+			}
+		case []value:
+			// clear(slice): zero all elements (element type from the builtin's signature)
+			t := fn.Type().(*types.Signature).Params().At(0).Type().Underlying().(*types.Slice).Elem()
+			for i := range m {
+				m[i] = zero(t)
+			}
+		default:
+			panic(fmt.Sprintf("clear: illegal operand %T", m))
+		}
+		return nil
+
 	case "print", "println": // print(any, ...)
 		ln := fn.Name() == "println"
 		var buf bytes.Buffer
